@@ -29,6 +29,7 @@ func registerIntrinsics(e *Engine) {
 	registerHash(e)
 	registerIO(e)
 	registerJSONDB(e)
+	registerNet(e)
 	registerMisc2(e)
 	for _, n := range []string{"String", "Int64", "Bool", "Int", "StringValue", "Int64Value", "BoolValue"} {
 		allowExecNames["github.com/go-openapi/swag."+n] = true
